@@ -1,5 +1,6 @@
 import IV.Model.Proto
 import IV.Model.Dr
+import IV.Model.Subgraphs
 open IV IV.Proto IV.Dr
 
 /-! Driver for the engine model (C01–C04).  A world is sent line by line, then `run`/`levels`. -/
@@ -193,6 +194,15 @@ def handle (s : St) (fs : List String) : St × String :=
       | some ls => (s, "/".intercalate (ls.map (showNats ",")))
       | none => (s, "cyclic")
     | none => (s, "bad-op")
+  | ["subgraphs", g, deps, dependents, prio] =>
+    -- G in dict order; deps / dependents as `c:d,d;c:d`; prio as `c:p;c:p`
+    match nats ',' g, parseGraph deps, parseGraph dependents, parseGraph prio with
+    | some G, some ds, some dts, some ps =>
+      let look (t : Graph) (c : Comp) : List Comp := match t.find? (·.1 == c) with | some kv => kv.2 | none => []
+      let r : Rel := ⟨look ds, look dts⟩
+      let pr (c : Comp) : Nat := (look ps c).headD 0
+      (s, "/".intercalate ((getSubgraphs r pr G).map (fun sg => showNats "," (sortNats sg))))
+    | _, _, _, _ => (s, "bad-op")
   | _ => (s, "bad-op")
 
 def main : IO Unit := serveState ({} : St) handle
